@@ -98,6 +98,7 @@ type pMethod struct {
 	Desc       string     `json:"desc"`
 	Extra      []string   `json:"extra,omitempty"`
 	ValueRecv  bool       `json:"valueRecv,omitempty"` // func (c AController) instead of (c *AController)
+	Ptag       string     `json:"ptag,omitempty"`      // which perturbation(s) produced this method (label only)
 }
 
 type pField struct {
@@ -395,7 +396,7 @@ func writeProject(dir string, pc *pCase, repo string, hook bodyHook) error {
 		if m.ValueRecv {
 			recv = c.Name
 		}
-		fmt.Fprintf(&fb.body, "func (c %s) %s(%s)%s {\n", recv, m.Name, strings.Join(params, ", "), retSig)
+		fmt.Fprintf(&fb.body, "func (ctl_ %s) %s(%s)%s {\n", recv, m.Name, strings.Join(params, ", "), retSig)
 		if hook != nil {
 			fb.body.WriteString(hook(c, m, retLocal, fb.imports))
 		} else {
